@@ -59,37 +59,46 @@ def rule_e_loop_exit(ctx, cfg='prod-all'):
         # exit conditions: switches inside a loop that contains a random_prime call, having an edge that leaves the loop towards tgt
         found = {'gt': False, 'lt': False, 'gcd': False}
         prime_in_loop = False
-        for h, blocks in loops:
-            if tgt in blocks:
+        from flow import classify_switch
+        # the search loop sits in this body or in a helper of the module that hands the exponent back (`fresh_exponent(&phi_n)`); its exit
+        # conditions are read in the terms of the entry point
+        for fr in walk(eng, entry.path, max_depth=4, include_closures=False):
+            if fr.path != entry.path and not fr.path.startswith(('cl03::signature::', 'cl03::blind::')):
                 continue
-            has_prime = any(b.blocks[x]['term']['k'] == 'call' and (local_target(eng, b.blocks[x]['term']) or '').endswith('random_prime') for x in blocks)
-            if not has_prime:
-                continue
-            prime_in_loop = True
-            for x in blocks:
-                t = b.blocks[x]['term']
-                if t['k'] != 'switch':
+            lb, lfd = fr.body, fr.fd
+            for h, blocks in lb.natural_loops():
+                if lb is b and tgt in blocks:
                     continue
-                from flow import classify_switch
-                g = classify_switch(eng, fd, x)
-                subs = ga._flatten(g)
-                for g2 in subs:
-                    w = g2.what or ''
-                    atoms = g2.all_atoms()
-                    names = {fmt_atom(b, a) for a in atoms}
-                    if 'PartialOrd::gt' in w and 'le' in names:
-                        found['gt'] = True
-                    if 'PartialOrd::lt' in w and 'le' in names:
-                        found['lt'] = True
-                    if any(n.startswith('sk.p') for n in names) and any(n.startswith('sk.q') for n in names):
-                        found['gcd'] = True
+                has_prime = any(lb.blocks[x]['term']['k'] == 'call' and (local_target(eng, lb.blocks[x]['term']) or '').endswith('random_prime') for x in blocks)
+                if not has_prime:
+                    continue
+                prime_in_loop = True
+                for x in blocks:
+                    t = lb.blocks[x]['term']
+                    if t['k'] != 'switch':
+                        continue
+                    g = classify_switch(eng, lfd, x)
+                    subs = ga._flatten(g)
+                    for g2 in subs:
+                        w = g2.what or ''
+                        atoms = fr.lift(g2.all_atoms())
+                        names = {fmt_atom(entry, a) for a in atoms}
+                        if ('PartialOrd::gt' in w or 'PartialOrd::ge' in w) and 'le' in names:
+                            found['gt'] = True
+                        if ('PartialOrd::lt' in w or 'PartialOrd::le' in w) and 'le' in names:
+                            found['lt'] = True
+                        if any(n.startswith('sk.p') for n in names) and any(n.startswith('sk.q') for n in names):
+                            found['gcd'] = True
         # provenance of e at the signature aggregate
         e_ok = False
-        for bi, s in entry.stmts():
-            if s['k'] == 'assign' and s['rv']['k'] == 'agg' and s['rv']['ak'] == 'adt' and 'e' in s['rv'].get('fields', []):
-                i = s['rv']['fields'].index('e')
-                at = efd.read_op(s['rv']['ops'][i])
-                e_ok = any(a[0] == 'o' and a[1].endswith('thread_rng') for a in at) and any(a[0] == 'a' and a[1].endswith('::le') for a in at)
+        for fr in walk(eng, entry.path, max_depth=3, include_closures=False):
+            if fr.path != entry.path and not fr.path.startswith(('cl03::signature::', 'cl03::blind::')):
+                continue
+            for bi, s in fr.body.stmts():
+                if s['k'] == 'assign' and s['rv']['k'] == 'agg' and s['rv']['ak'] == 'adt' and {'e', 'v'} <= set(s['rv'].get('fields', [])):
+                    i = s['rv']['fields'].index('e')
+                    at = fr.lift(fr.fd.read_op(s['rv']['ops'][i]))
+                    e_ok = e_ok or (any(a[0] == 'o' and a[1].endswith('thread_rng') for a in at) and any(a[0] == 'a' and a[1].endswith('::le') for a in at))
         ok = prime_in_loop and all(found.values()) and e_ok
         yield Ob('RF-Q', '%s#e-loop-exit' % entry.path, ok,
                  'the issued exponent leaves the generate-and-test loop only when 2^(le-1) < e < 2^le and gcd(e, phi(N)) == 1, and comes from random_prime(le)',
